@@ -92,6 +92,7 @@ type finding struct {
 	Models      [][]drawVal
 	Replays     []string
 	Status      string // reproduced, unconfirmed, known
+	Realised    int
 }
 
 func (hr *HarnessRun) id() string {
@@ -356,7 +357,7 @@ func (r *Run) runPath(w *Worker, it workItem) (more [][]uint64) {
 	for c := range m.called {
 		hr.called[c]++
 	}
-	addFinding := func(kind, label, detail string, model []drawVal) {
+	addFinding := func(kind, label, detail string, model []drawVal, realised ...[]drawVal) {
 		fp := hr.id() + "/" + label
 		f := hr.findings[fp]
 		if f == nil {
@@ -364,6 +365,16 @@ func (r *Run) runPath(w *Worker, it workItem) (more [][]uint64) {
 			hr.findings[fp] = f
 		}
 		f.Count++
+		for _, rm := range realised {
+			if rm != nil && f.Realised < 2 {
+				// realised models go first: they are the ones the real primitives agree with
+				f.Models = append([][]drawVal{rm}, f.Models...)
+				f.Realised++
+				if len(f.Models) > 4 {
+					f.Models = f.Models[:4]
+				}
+			}
+		}
 		if model != nil && len(f.Models) < 3 {
 			f.Models = append(f.Models, model)
 		}
@@ -371,7 +382,7 @@ func (r *Run) runPath(w *Worker, it workItem) (more [][]uint64) {
 	for _, e := range m.events {
 		switch e.kind {
 		case "assert":
-			addFinding("assert", e.label, e.detail, e.model)
+			addFinding("assert", e.label, e.detail, e.model, e.realised)
 		case "write":
 			addFinding("write", e.label+" in "+e.detail, e.detail, nil)
 		}
